@@ -31,14 +31,20 @@ NULL == -9999
 Units == 0..2
 Keys == 0..1
 Vals == {0, 1, 2}
+\* signed configurations: the column is declared on [-2, 2] and contributions of one unit to different groups may cancel
+ValsOf(c) == IF c.signed THEN {-2, 1, 2} ELSE Vals
+\* (signed databases are concentrated on two units so that one unit often holds opposite values in both groups)
+UnitsOf(c) == IF c.signed THEN {0, 1} ELSE Units
 Measures == {"one", "v", "v2"}
 
 Pick(S) == IF Sample /\ S # {} THEN {RandomElement(S)} ELSE S
 
 \* configurations of the compiled query
 Aggs == {"count", "sum", "avg", "var", "std", "count_distinct", "sum_distinct"}
-Configs == [agg : Aggs, grouped : BOOLEAN, keys : {"public", "private"}, cu : 1..2, mult : {1, 3}, where : BOOLEAN]
-ValidConfig(c) == (~c.grouped => c.keys = "public" /\ c.cu = 1)
+Configs == [agg : Aggs, grouped : BOOLEAN, keys : {"public", "private"}, cu : 1..2, mult : {1, 3}, where : BOOLEAN, signed : BOOLEAN]
+ValidConfig(c) == /\ (~c.grouped => c.keys = "public" /\ c.cu = 1)
+                  \* signed columns are explored where cancellation across groups can show: every group released
+                  /\ (c.signed => c.grouped /\ c.keys = "public" /\ ~c.where)
 
 \* absolute bound of a measure (values are declared in [0,2]) times the multiplicity estimate
 Bound(m, mult) == (CASE m = "one" -> 1 [] m = "v" -> 2 [] m = "v2" -> 4) * mult
@@ -54,7 +60,7 @@ VARIABLES cfg, db, target, stage,
 vars == <<cfg, db, target, stage, rows, released, order, noise, tau>>
 
 RowOf(u, k, v) == [u |-> u, k |-> k, v |-> v]
-AllRows == { RowOf(u, k, v) : u \in Units, k \in Keys, v \in Vals \cup {NULL} }
+AllRows(c) == { RowOf(u, k, v) : u \in UnitsOf(c), k \in Keys, v \in ValsOf(c) \cup {NULL} }
 \* databases are bags: rows are inserted in non-decreasing order of a fixed enumeration
 Code(r) == r.u * 100 + r.k * 10 + (IF r.v = NULL THEN 9 ELSE r.v)
 
@@ -63,7 +69,7 @@ Init == /\ cfg \in { c \in Configs : ValidConfig(c) }
         /\ rows = << >> /\ released = {} /\ order = << >> /\ noise = [k \in Keys |-> 0] /\ tau = 1
 
 InsertRow == /\ stage = "db" /\ Len(db) < target
-             /\ \E r \in Pick({ x \in AllRows : db = << >> \/ Code(db[Len(db)]) <= Code(x) }) : db' = Append(db, r)
+             /\ \E r \in Pick({ x \in AllRows(cfg) : db = << >> \/ Code(db[Len(db)]) <= Code(x) }) : db' = Append(db, r)
              /\ UNCHANGED <<cfg, target, stage, rows, released, order, noise, tau>>
 
 \* WHERE v > 0 (NULL does not pass)
